@@ -153,8 +153,7 @@ func (c *RetryClient) publish(ctx context.Context, cli *BaseClient, message *Mes
 			default:
 			}
 			if retryErr, ok := err.(ErrorWithRetry); ok {
-				c.retryQueue = append(c.retryQueue, retryErr.Retry)
-				c.newRetryByError = true
+				c.queueRetry(retryErr)
 			}
 		}
 		return
@@ -192,8 +191,7 @@ func (c *RetryClient) subscribe(ctx context.Context, retry bool, cli *BaseClient
 			default:
 			}
 			if retryErr, ok := err.(ErrorWithRetry); ok {
-				c.retryQueue = append(c.retryQueue, retryErr.Retry)
-				c.newRetryByError = true
+				c.queueRetry(retryErr)
 			}
 		}
 		return nil
@@ -222,8 +220,7 @@ func (c *RetryClient) unsubscribe(ctx context.Context, cli *BaseClient, topics .
 			default:
 			}
 			if retryErr, ok := err.(ErrorWithRetry); ok {
-				c.retryQueue = append(c.retryQueue, retryErr.Retry)
-				c.newRetryByError = true
+				c.queueRetry(retryErr)
 			}
 		}
 		return nil
@@ -390,6 +387,18 @@ func (c *RetryClient) pushTask(ctx context.Context, task func(ctx context.Contex
 	return nil
 }
 
+// queueRetry queues the retry handle of an interrupted request.
+// The retransmission is subject to ResponseTimeout as the first transmission is,
+// and the connection is closed after the current task to get a new one.
+func (c *RetryClient) queueRetry(retryErr ErrorWithRetry) {
+	c.retryQueue = append(c.retryQueue, func(ctx context.Context, cli *BaseClient) error {
+		ctx2, cancel := c.requestContext(ctx)
+		defer cancel()
+		return retryErr.Retry(ctx2, cli)
+	})
+	c.newRetryByError = true
+}
+
 func (c *RetryClient) onError(err error) {
 	if c.OnError != nil {
 		c.OnError(err)
@@ -447,7 +456,8 @@ func (c *RetryClient) Retry(ctx context.Context) {
 
 			err := retry(ctx, cli)
 			if retryErr, ok := err.(ErrorWithRetry); ok {
-				c.retryQueue = append(c.retryQueue, retryErr.Retry)
+				c.onError(err)
+				c.queueRetry(retryErr)
 				// Keep only the entries which have not been processed yet.
 				c.retryQueue = append(c.retryQueue, oldRetryQueue[i+1:]...)
 				break
